@@ -239,13 +239,22 @@ def _pae_rules(out, facts, pr):
     ok = names == spec
     _f(out, "C08.R4", ok, pr, "PAE component list", "pre-authentication encoding is %s, the specification's is %s" % (names, spec), ln,
        desc="%s: PAE = %s" % (e.label, names))
-    # per class rules: present at the specification's position, with the right provenance
+    # per class rules: present exactly once, in the specification's relative order, with the right provenance
+    # (the absolute position is C08.R4's business: a component dropped elsewhere must not be blamed on the footer)
     body_rule = "C01.R4" if e.vp[1] == "Local" else "C02.R2"
+    order = [n for n in names if n in spec]
     for want_i, want in enumerate(spec):
         rule = CLASS_RULE.get(want, body_rule)
-        got = cls[want_i] if want_i < len(cls) else ("missing", None)
-        okc = got[0] == want
+        idxs = [i for i, n in enumerate(names) if n == want]
+        okc = len(idxs) == 1
+        got = cls[idxs[0]] if okc else ("missing" if not idxs else "duplicated", None)
         detail = ""
+        if okc:
+            # relative order with respect to the other recognised components
+            before = [n for n in names[:idxs[0]] if n in spec]
+            okc = all(spec.index(b) < spec.index(want) for b in before)
+            if not okc:
+                got = ("out of order", names)
         if okc:
             if want == "header":
                 okc = got[1] == "self" if e.role == "producer" else got[1] == e.vp
@@ -256,9 +265,9 @@ def _pae_rules(out, facts, pr):
             elif want == "pk":
                 okc = got[1][1] and list(got[1][0]) == [pr.params.get("key")]
                 detail = "compressed=%s from params %s" % (got[1][1], list(got[1][0]))
-        _f(out, rule, okc, pr, "PAE[%d] %s" % (want_i, want),
-           "component %d of the pre-authentication encoding must be the %s (%s); found %s" % (want_i, want, "caller's expected value" if e.role == "consumer" else "builder's own value", got), ln,
-           desc="%s: PAE[%d] = %s %s" % (e.label, want_i, want, detail))
+        _f(out, rule, okc, pr, "PAE %s" % want,
+           "the pre-authentication encoding must contain the %s exactly once (%s), in the specification's order; found %s in %s" % (want, "caller's expected value" if e.role == "consumer" else "builder's own value", got, names), ln,
+           desc="%s: PAE has %s %s" % (e.label, want, detail))
     if "assertion" in spec:
         okl = names and names[-1] == "assertion"
         _f(out, "C06.R1", bool(okl), pr, "assertion is last PAE component", "the implicit assertion must be the last component under the tag/signature; list is %s" % names, ln, desc="%s: assertion last" % e.label)
@@ -321,7 +330,62 @@ def _pair_rules(out, facts, c, p):
         _f(out, "C02.R1", bool(okb), c, "message cut", "the message must be payload[..len-%d]; found %s" % (SIG_LEN[V], b), c.pae_site["ln"] if c.pae_site else None,
            desc="%s.public: message = payload[..len-%d]" % (V.lower(), SIG_LEN[V]))
         _public_producer(out, facts, p)
-    _min_length_guard(out, facts, c)
+    guards = _min_length_guard(out, facts, c)
+    _reject_inventory(out, facts, c, guards)
+
+
+ALLOWED_REJECT = [
+    r"paseto::Paseto::<'a, Version, Purpose>::parse_raw_token$", r"AuthenticationKey<.*>>::try_from$", r"EncryptionKey<.*>>::try_from$",
+    r"cipher_text::CipherText<.*>>::(try_verify|try_decrypt_from)$", r"^core::str::converts::from_utf8$", r"^alloc::string::String::from_utf8$",
+    r"^core::convert::TryFrom::try_from$", r"^ed25519_dalek::verifying::VerifyingKey::from_bytes$", r"^elliptic_curve::public_key::PublicKey::<C>::from_sec1_bytes$",
+    r"^ecdsa::verifying::VerifyingKey::<C>::from_sec1_bytes$", r"^chacha20poly1305::.*new_from_slice$|^crypto_common::KeyInit::new_from_slice$",
+] + [p for p, _, _ in S.AUTH_PRIMS]
+
+
+def _reject_inventory(out, facts, c, guard_blocks):
+    """C01.R8 / C02.R6: the only ways a consumer rejects a token are format errors, the minimal-length guard, key conversion,
+    the authentication check itself and UTF-8 conversion - an additional rejection path can refuse authentic tokens."""
+    V, P = c.e.vp
+    rl = "C01.R8" if P == "Local" else "C02.R6"
+    views = [(c.v, c.N, c.e.id)]
+    if c.helper:
+        views.append((M.view(facts, facts.bodies[c.helper]), M.Normalizer(facts, keep=S.KEEP), c.helper))
+    if P == "Local" and V == "V2":
+        for bid, b in facts.bodies.items():
+            if re.search(r"CipherText<crate::core::version::v2::V2, crate::core::purpose::local::Local>>::try_decrypt_from$", bid):
+                views.append((M.view(facts, b), M.Normalizer(facts, keep=S.KEEP), bid))
+    for v, N, where in views:
+        n = 0
+        bad = []
+        for s2 in M.try_sites(v):
+            op = S.strip_result_wrappers(N.norm(s2["operand"]))
+            if op.op == "tryok":
+                op = op.args[0]
+            td = op.meta.get("tdef", "") if op.op == "call" else M.show(op)[:60]
+            dd = op.meta.get("def", "") if op.op == "call" else ""
+            n += 1
+            if not any(re.search(p, td) or re.search(p, dd) for p in ALLOWED_REJECT):
+                bad.append(("`?` on " + M.short(td), s2["ln"]))
+        for d in v.defs.get(0, []):
+            if d[0] == "assign" and d[3]["k"] == "aggregate" and d[3].get("variant") == "Err":
+                n += 1
+                # walk back through unique predecessors to the deciding switch
+                b = d[1]
+                guard = None
+                for _ in range(6):
+                    ps = [p for p in v.cfg.pred[b] if p in v.cfg.reach]
+                    if len(ps) != 1:
+                        break
+                    b = ps[0]
+                    if v.body["blocks"][b]["term"]["k"] == "switch":
+                        guard = b
+                        break
+                if guard is None or (where, guard) not in guard_blocks:
+                    bad.append(("explicit Err(%s) not guarded by the minimal-length check" % M.show(v.op_term(d[3]["fields"][0]))[:60], v.line(d[1])))
+        ok = not bad
+        _f(out, rl, ok, where, "rejection paths" if ok else bad[0][0],
+           "unrecognised rejection path in a consumer (%s): authentic tokens may be refused; recognised causes are format errors, the minimal-length guard, key conversion, the authentication check and UTF-8 conversion" % "; ".join(x[0] for x in bad),
+           bad[0][1] if bad else None, file=v.file(), desc="%s: %d rejection paths, all recognised" % (M.short(where)[:70], n))
 
 
 def _calls_in(pr, pat):
@@ -497,7 +561,7 @@ def _min_length_guard(out, facts, c):
     if c.helper:
         hb = facts.bodies[c.helper]
         views.append((M.view(facts, hb), M.Normalizer(facts, keep=S.KEEP), c.helper))
-    found = 0
+    found = set()
     for v, N, where in views:
         for sw in M.bool_switches(v):
             if sw["ty"] != "bool":
@@ -518,7 +582,7 @@ def _min_length_guard(out, facts, c):
                 op, k = {"Lt": "Gt", "Le": "Ge", "Gt": "Lt", "Ge": "Le", "Eq": "Eq", "Ne": "Ne"}[t.name], const_int(a)
             else:
                 continue
-            found += 1
+            found.add((where, sw["block"]))
             tr, fl = M.truth_edges(sw)
             # which lengths take the edge that leads to an Err exit?
             oks, errs, dele = S.ok_exits(v)
